@@ -377,7 +377,10 @@ func init() {
 				{pkgRel: "graph/search", typ: "GraphIterator", field: "n", noneOK: true}, {pkgRel: "graph/search", typ: "GraphIterator", field: "a", noneOK: true}, {pkgRel: "graph/search", typ: "GraphIterator", field: "m", noneOK: true}})
 			fw.Doc = "configuration (n, a, m) and the derived splitLevel are written only where the iterator is built (WithPruning), never later through a *GraphIterator"
 			fw.MinInst = 4
-			return []*RuleResult{ruleCapture(c), ruleGobFields(c, "graph/search", "save"), pure, fw}
+			gl := ruleGlobalIn(c, "graph/search")
+			gl.Doc = "no function of the search package writes through, or hands out, a package-level variable: two iterators (or a saved record and the iterator it came from) can share nothing behind the caller's back"
+			gl.MinInst = 5
+			return []*RuleResult{ruleCapture(c), ruleGobFields(c, "graph/search", "save"), pure, fw, gl}
 		},
 		controls: func(ctl *Ctx) []*RuleResult {
 			g := ruleGobFields(ctl, "capctl", "BadRecord")
